@@ -317,14 +317,14 @@ PROPS = {
                 "non-trivial = a configuration was generated or an operation ran; distinct = distinct input vectors",
         "trusted": ["the Linux kernel of this sandbox (netns, veth, policy routing, route get) as the reference for what the programmed state does", "vishvananda/netlink dumps and RouteGetWithOptions",
                     "containernetworking testutils.NewNS (private namespaces, one locked OS thread per sequence)", "the harness' integer encoding of addresses, devices and tables (DpRun.v decoders)"],
-        "modelled": ["ipvlan, exclusive-ENI and vlan datapaths: only their container-side generators are exercised (clauses on the generated configuration); this kernel has no ipvlan / vlan / dummy link types, so their setup cannot run",
+        "modelled": ["ipvlan, exclusive-ENI and vlan datapaths: their container-side generators are modelled field by field and compared on every generated configuration; this kernel has no ipvlan / vlan / dummy link types, so their setup cannot run",
                      "traffic control (bandwidth, network priority, vlan tag filters) and sysctls are not observed", "a veth pair plays the ENI: its peer is up, nothing answers on it (the FIB lookup does not need a neighbour)"],
         "assumptions": ["addresses of pods that are set up at the same time are distinct (the IPAM properties)"],
         "level_text": "Theorems (policy-route datapath): from every state of the host namespace, stale rules of an earlier holder of the address included, a setup makes the kernel's lookup deliver to the pod's veth and "
                       "send pod-sourced traffic out of the owning interface via its gateway, per family; a teardown removes every rule of the address, the veth and the routes through it and leaves every other "
                       "rule, veth, route and table as it was; the container gets exactly one default route per enabled family when asked, whatever the extra routes. Tied by comparing the model with the real "
                       "generators and with the kernel's state after every real Setup / Teardown.",
-        "level_note": "Trusted: Coq kernel, extraction, driver, harness, the sandbox kernel. Partial: three of the four datapaths are judged on their generators' output only.",
+        "level_note": "Trusted: Coq kernel, extraction, driver, harness, the sandbox kernel. Partial: three of the four datapaths are modelled and proved at the level of their generated configuration only (their kernel programming cannot run here).",
     },
     "C04": {
         "pkg": "./svc/", "test": "TestVerif_Svc", "n_quick": 400, "n_thorough": 20000, "retry_mismatch": True, "env": {"VERIF_PROP": "C04"},
